@@ -957,19 +957,24 @@ def SegsOK (l : List Str) : Prop := ∀ s ∈ l, SegOK s
 instance (s : Str) : Decidable (SegOK s) := by unfold SegOK; infer_instance
 instance (l : List Str) : Decidable (SegsOK l) := by unfold SegsOK; infer_instance
 
+/-- what the record must say about the product directory -/
+def canonDir : DirPl → PVal
+  | .inside rel => .path (Path.rel rel)
+  | .outside s => .path (absP s)
+  | .none => .ph sNone
+
+/-- what the record must say about the table file and the ups directory -/
+def canonTab (name version flavor : Str) : TabPl → PVal × PVal
+  | .inUps => (.path (tableName name), .path (Path.rel [sUps]))
+  | .absInside trel => (.path (Path.rel trel), .path (Path.rel [sUps]))
+  | .absOutside s => (.path (absP s), .path (Path.rel [sUps]))
+  | .interned => (.path (tableName name), .path (Path.rel [mUPS_DB, flavor, name, version, sUps]))
+  | .none => (.ph sNone, .ph sNone)
+
 /-- what the record must contain for a placement: no trace of `root` for anything inside the stack -/
 def canonInfo (name version flavor : Str) (d : DirPl) (t : TabPl) : PInfo :=
-  let pd : PVal := match d with
-    | .inside rel => .path (Path.rel rel)
-    | .outside s => .path (absP s)
-    | .none => .ph sNone
-  let (tf, ups) : PVal × PVal := match t with
-    | .inUps => (.path (tableName name), .path (Path.rel [sUps]))
-    | .absInside trel => (.path (Path.rel trel), .path (Path.rel [sUps]))
-    | .absOutside s => (.path (absP s), .path (Path.rel [sUps]))
-    | .interned => (.path (tableName name), .path (Path.rel [mUPS_DB, flavor, name, version, sUps]))
-    | .none => (.ph sNone, .ph sNone)
-  { productDir := some pd, tableFile := some tf, upsDir := some ups }
+  { productDir := some (canonDir d), tableFile := some (canonTab name version flavor t).1,
+    upsDir := some (canonTab name version flavor t).2 }
 
 /-- Side conditions under which a placement is one of those the property lists. -/
 structure PlaceOK (root : List Str) (name version flavor : Str) (d : DirPl) (t : TabPl) : Prop where
